@@ -308,6 +308,28 @@ pub fn run_c05(w: &mut W) {
         let mut sut = Sut::new(1);
         let n = 2 + rng.usize(6);
         for _ in 0..n {
+            if rng.chance(1, 10) {
+                // a template record without fields (what RFC 7011 8.1 calls a withdrawal: of one id,
+                // or - id 2 / 3 - of all templates / all options templates). This library learns
+                // nothing from it and forgets nothing (C06): the stream goes on as if it had not
+                // been sent.
+                let options = rng.chance(1, 2);
+                let ids: Vec<u16> = ex.ix_t.keys().chain(ex.ix_o.keys()).cloned().collect();
+                let id = match rng.below(3) {
+                    0 => if options { 3 } else { 2 },
+                    1 if !ids.is_empty() => *rng.pick(&ids),
+                    _ => rng.range(256, 65535) as u16,
+                };
+                let mut body = vec![];
+                body.extend_from_slice(&id.to_be_bytes());
+                body.extend_from_slice(&[0, 0]);
+                if options {
+                    body.extend_from_slice(&[0, 0]);
+                }
+                let m = IpfixMsg { export_time: rng.b32(), seq: rng.b32(), domain: rng.b32(), sets: vec![IpfixSet::Orphan { id: if options { 3 } else { 2 }, body }] };
+                sut.parse(0, &m.wire());
+                w.rep.count("withdrawal_shaped_messages", 1);
+            }
             let msg = ex.ipfix_msg(&mut rng, &cfg, &w.pools);
             let wire = msg.wire();
             w.rep.count("packets", 1);
